@@ -117,6 +117,19 @@ func concretise(v AV) interface{} {
 		return m
 	case "markup":
 		return pongo2.AsSafeValue(piecesText(v.L))
+	case "struct":
+		st := vStruct{}
+		for _, p := range v.L {
+			switch atomsText(p.L[0].S) {
+			case "F":
+				st.F = concretise(p.L[1])
+			case "G":
+				st.G = concretise(p.L[1])
+			}
+		}
+		return st
+	case "stringer":
+		return vStringer{atomsText(v.S)}
 	case "ap":
 		r, err := pongo2.ApplyFilter(v.S[0], pongo2.AsValue(concretise(v.L[0])), pongo2.AsValue(concretise(v.L[1])))
 		if err != nil {
@@ -144,7 +157,7 @@ func written(v AV, esc int) string {
 		}
 	case "int":
 		s = strconv.Itoa(v.N)
-	case "str":
+	case "str", "stringer":
 		s = atomsText(v.S)
 		isStr = true
 	case "markup":
@@ -757,3 +770,64 @@ func cmdRegistry(args []string) {
 }
 
 func init() { commands["registry"] = cmdRegistry }
+
+// Go values for the abstract kinds "struct" and "stringer"
+type vStruct struct {
+	F interface{}
+	G interface{}
+	h interface{} // unexported
+}
+
+type vStringer struct{ s string }
+
+func (v vStringer) String() string { return v.s }
+
+// rawMarker reports a context marker that reached the output unescaped: "<m<i>" or "<i>&'\">" (any letter case).
+func rawMarker(out string) string {
+	lo := strings.ToLower(out)
+	for _, i := range []string{"1", "2", "3", "4"} {
+		if strings.Contains(lo, "<m"+i) || strings.Contains(lo, "m"+i+"&'\"") || strings.Contains(lo, i+"&'\">") {
+			return "marker " + i
+		}
+	}
+	return ""
+}
+
+// cmdC02Replay: the property's own observable (no raw marker in the output of an opt-out-free program); the exact
+// output predicted by the specification is compared as well, but a difference there is only counted (it belongs to
+// C09/C12/C19), not reported.
+func cmdC02Replay(args []string) {
+	rep := newReport("c02-replay")
+	seen := map[string]bool{}
+	diag := 0
+	readVectors(func(raw json.RawMessage) {
+		var v renderVector
+		if err := json.Unmarshal(raw, &v); err != nil {
+			fatal("bad vector", err, string(raw)[:300])
+		}
+		rep.Vectors++
+		src, got, want, _, problem := renderVec(&v)
+		rep.Checked++
+		seen[src] = true
+		if got.Panic != "" {
+			rep.viol(fmt.Sprintf("autoescape: template %q: panic %s", src, firstLine(got.Panic)), map[string]interface{}{"vector": raw, "cmd": "c02-replay"})
+			return
+		}
+		if m := rawMarker(got.Out); m != "" {
+			rep.viol(fmt.Sprintf("autoescape: template %q wrote a context string unescaped (%s): %q", src, m, got.Out),
+				map[string]interface{}{"vector": raw, "src": src, "got": got.Out, "want": want, "cmd": "c02-replay"})
+			return
+		}
+		if problem != "" && !strings.HasPrefix(problem, "SKIP") {
+			diag++
+		}
+		if rep.Checked%2999 == 1 {
+			rep.sample(map[string]interface{}{"template": src, "output": got.Out, "specification": want})
+		}
+	})
+	rep.Distinct = len(seen)
+	rep.Extra["exact_output_differences_not_reported_here"] = diag
+	rep.emit()
+}
+
+func init() { commands["c02-replay"] = cmdC02Replay }
